@@ -115,6 +115,8 @@ def cases(tier, seed=0):
         yield fam, dims, sh
     for fam, dims, sh in medium_cases():
         yield fam, dims, sh
+    for fam, dims, sh in lopsided_cases():
+        yield fam, dims, sh
     if thorough:
         for fam, dims, sh in thorough_cases(seed):
             yield fam, dims, sh
@@ -151,6 +153,24 @@ def medium_cases():
         one = tuple(nxt(3) for _ in range(n))
         yield "medium", (((n, cc), cells, 0), ((n,), one, 1)), None
         yield "medium", (((n,), one, 2), ((n, cc), cells, k)), None
+
+
+def lopsided_cases():
+    """Hundreds of rows with very unequal entries: a dimension whose uncommon entry has 1-2 rows (first, last, row 256, ...)
+    against a dimension whose entry holds (nearly) every row - windowing, galloping or leaping intersections engage only
+    on such pairs (length ratios above 32x, 64x, 256x)."""
+    for n in (257, 300, 600):
+        for a_rows in ((n - 1,), (0,), (256,), (3, n - 1), (0, 255)):
+            a = tuple(1 if i in a_rows else 0 for i in range(n))
+            full = tuple(1 for _ in range(n))
+            holes = tuple(2 if i in (7, n - 2) else 1 for i in range(n))
+            third = tuple((i * 7) % 3 for i in range(n))
+            for b in (full, holes):
+                yield "lopsided", (((n,), a, 0), ((n,), b, 0)), None
+                yield "lopsided", (((n,), b, 0), ((n,), a, 0)), None
+            if n != 600:
+                yield "lopsided", (((n,), third, 2), ((n,), a, 0), ((n,), full, 0)), None
+                yield "lopsided", (((n,), a, 0), ((n,), third, 0), ((n,), holes, 0)), None
 
 
 def boundary_cases(thorough):
@@ -318,6 +338,18 @@ def do_case(fam, dims, shape, st, parts=("walk", "count")):
             else:
                 _try(lambda: ccube(idx, **kw).count(return_missing_as=fmt))
             st.call(nrows > 0, cj)
+        if not one_axis:
+            # the evaluation mode is not part of the property: the same table with the sub-cubes handed to the thread pool
+            # (the library switches to it by size; `parallel` is the cube's own switch) for every pool size up to the scaffold
+            for ps in (None, 1, 2, 3, 5):
+                def pooled():
+                    c = ccube(idx, **kw)
+                    c.parallel = True
+                    if ps is not None:
+                        c.poolsize = ps
+                    return c.count()
+                _try(pooled)
+                st.call(nrows > 0, cj)
     st.cases += 1
 
 
